@@ -86,7 +86,7 @@ def generate(tier, seed):
                             if name == "TPLStable" and a == "alpha":
                                 o["hurst"] = min(0.5, 0.45 * v)
                             plist.append((f"{a}={v:g}(round)", o, None))
-                            for fac in (1.0 + 2e-6, 1.0 - 2e-6):
+                            for fac in (1.0 + 2e-6, 1.0 - 2e-6, 1.0 - 4e-9):
                                 vv = v * fac
                                 if b[0] < vv < b[1] and rng.random() < 0.5:
                                     o2 = dict(o)
@@ -176,7 +176,7 @@ def check_spectrum(ctx, c):
     desc = {"name": name, "dim": int(model.dim), "len_scale": float(model.len_scale), "opt": {o: float(getattr(model, o)) for o in model.opt_arg},
             "rescale": float(model.rescale)}
     for r in (0.0, 0.41 * unit, 1.7 * unit):
-        if abs(rho(r) - float(ocov.correlation(desc, r))) > 1e-9:
+        if not abs(rho(r) - float(ocov.correlation(desc, r))) <= 1e-9:
             ctx.fail({"what": "correlation!=closed-form", "model": name, "dim": dim}, f"r={r}")
             return
     sup = ocov.support(desc)
